@@ -212,7 +212,7 @@ def run_pos(cfg):
             return dict(gene.mutations)
 
         npaths = 0
-        for dec, pc, muts in eng.explore(run, base, max_paths=2000):
+        for dec, pc, muts in eng.explore(run, base, max_paths=200000):
             npaths += 1
             if not muts:
                 # variant ignored: only legitimate when its key base is unmapped
